@@ -24,9 +24,45 @@ REQUIRED = [
     "DaeVerif.C01.Props.compiled_pname_unknown_never_matches",
     "DaeVerif.C01.Props.compiled_port_range_inclusive",
     "DaeVerif.C01.Props.compiled_first_final_decides",
+    "DaeVerif.C01.Props.match_by_lpm_index_is_first_match",
+    "DaeVerif.C01.Props.lpm_index_in_range",
+    "DaeVerif.C01.Props.shared_slot_same_set",
+    "DaeVerif.C01.Props.rule_outbound_meaning",
+    "DaeVerif.C01.Props.fallback_outbound_meaning",
+    "DaeVerif.C01.Props.must_prefix_sets_must",
+    "DaeVerif.C01.Props.must_rules_reserved",
+    "DaeVerif.C01.Props.last_mark_wins",
+    "DaeVerif.C01.Props.resolved_program_outs_ok",
+    "DaeVerif.C01.Props.route_text_is_first_match",
+    "DaeVerif.C01.Props.group_table_refuses_too_many",
+    "DaeVerif.C01.Props.group_table_accepts",
+    "DaeVerif.C01.Props.port_text_single",
+    "DaeVerif.C01.Props.port_text_bounds",
+    "DaeVerif.C01.Props.port_text_leading_zero",
+    "DaeVerif.C01.Props.value_text_examples",
     "DaeVerif.Compose.match_with_real_domain_matcher",
     "DaeVerif.Compose.empty_name_satisfies_no_domain_condition",
 ]
+
+
+def ids_overlay(ctx):
+    """translators/c01ids: the statements of NewControlPlane that build outboundName2Id, as a function of
+    package control.  None (→ exit 2) when the anchor no longer has the expected shape."""
+    from verifkit import sh, go_env, VERIF, REPO
+    gen = os.path.join(ctx.out, "gen")
+    os.makedirs(gen, exist_ok=True)
+    outp = os.path.join(gen, "c01ids.go")
+    if os.path.exists(outp):
+        os.unlink(outp)
+    rc, out, dt = sh(["go", "run", "main.go", os.path.join(REPO, "control"), outp],
+                     cwd=os.path.join(VERIF, "translators", "c01ids"), env=go_env(), timeout=600)
+    ctx.log.write(f"$ c01ids [{dt:.1f}s rc={rc}] {out}\n")
+    if rc != 0 or not os.path.exists(outp):
+        ctx.say("TRANSLATOR-FAILED c01ids (the group-table statements of NewControlPlane are no longer where the "
+                "translator expects them):", out[-1500:])
+        return None
+    ctx.cov["group_table_guard"] = out.strip()[-200:]
+    return {os.path.join(REPO, "control", "zz_verif_c01ids.go"): outp}
 
 
 def run(ctx):
@@ -35,25 +71,41 @@ def run(ctx):
         "C12 theorems (trie query = CIDR containment) are used for ip/mac conditions; pkg/trie internals are C11's subject",
         "composition (Compose.match_with_real_domain_matcher): with C11's proved model of the real domain matcher built from the builder's AddSet calls the oracle disappears for full/suffix/keyword patterns (regex stays an oracle); the driver executes that composed path (packed tries of the C11 model) on every packet that carries a name and flags any difference; "
         "domain key-group truth is an oracle per packet (computed by the harness with a reference matcher for full/suffix/keyword/regex on lower-case names; the bit's meaning is property C11); the real Match uses the real AhocorasickSlimtrie",
-        "the generator's typed program is the meaning of the text it renders (rendering code in harness/overlay/control/c01_test.go)",
+        "the generator's typed program is the meaning of the text it renders (rendering code in harness/overlay/control/c01_test.go) — "
+        "no longer for ports, DSCP, MACs, l4proto/ipversion literals and outbounds: the model receives those AS TEXT and parses them itself "
+        "(Text.lean, Outbound.lean); still so for addresses (netip.ParsePrefix) and for the condition structure",
+        "LPM slots: the driver runs C12's sharing machine with the real FNV-1a hash; the theorem (match_by_lpm_index_is_first_match) holds for every hash function",
+        "group table: NewControlPlane's statements are executed through a function regenerated from control_plane.go (translators/c01ids, fails closed); the dialer groups themselves are not built",
     ]
     ctx.prove(["DaeVerif.C01.Props", "DaeVerif.Compose.Routing"], ["DaeVerif.C01.Props", "DaeVerif.Compose"],
               ["DaeVerif/C01/*.lean", "DaeVerif/Compose/*.lean", "DaeVerif/Common/RuleScan.lean"],
               extra_targets=["c01drv"])
     ctx.required_theorems(REQUIRED)
 
+    # the three source translators are independent: c01ids runs beside the other two
+    import threading
+    ids_box = {}
+    ids_thread = threading.Thread(target=lambda: ids_box.update(ov=ids_overlay(ctx)))
+    ids_thread.start()
     fake = ctx.fake_bpf_overlay()
     if not fake:
+        ids_thread.join()
         return 2
     # the optimizer chain of NewControlPlane, regenerated from control_plane.go on every run
-    files = ["control/c01_test.go", "control/c12_test.go"]
+    files = ["control/c01_test.go", "control/c01_ext_test.go", "control/c12_test.go"]
     chain_ov, chain_mode = ctx.optchain_overlay()
-    binp = ctx.go_test_build("control", files, "c01", tags="", extra_overlay={**fake, **chain_ov})
+    # NewControlPlane's group-table statements (the `len(outbounds) > OutboundUserDefinedMax` guard, the
+    # duplicate check, the id assignment), regenerated from control_plane.go on every run; fails closed
+    ids_thread.join()
+    ids_ov = ids_box.get("ov")
+    if ids_ov is None:
+        return 2
+    binp = ctx.go_test_build("control", files, "c01", tags="", extra_overlay={**fake, **chain_ov, **ids_ov})
     if not binp and not chain_mode.startswith("FALLBACK"):
         # the call site no longer has the shape `routing.NewNormalizedProgram(rules, fallback, <literals>…)`:
         # fall back to the chain as it was when this check was written, and say so
         chain_ov, chain_mode = ctx.optchain_overlay(fallback=True)
-        binp = ctx.go_test_build("control", files, "c01", tags="", extra_overlay={**fake, **chain_ov})
+        binp = ctx.go_test_build("control", files, "c01", tags="", extra_overlay={**fake, **chain_ov, **ids_ov})
     if not binp:
         return 2
     ctx.cov["production_optimizer_chain"] = chain_mode
@@ -63,6 +115,11 @@ def run(ctx):
     if rc != 0 or not os.path.exists(ops):
         ctx.say("HARNESS-FAILED", out[-3000:])
         return 2
+    # the diagnostic second pass of the model driver (which rule decided) runs beside the first
+    import subprocess, re
+    binp_drv = os.path.join(os.path.dirname(os.path.dirname(os.path.abspath(__file__))), "lean", ".lake", "build", "bin", "c01drv")
+    diag_path = os.path.join(ctx.out, "c01.diag")
+    diag_proc = subprocess.Popen([binp_drv, "--diag"], stdin=open(ops), stdout=open(diag_path, "wb")) if os.path.exists(binp_drv) else None
     if not ctx.driver("c01drv", ops, model):
         ctx.proof_failures.append("model driver c01drv failed to run")
     mism = ctx.diff_streams(ops, impl, model, "c01")
@@ -78,13 +135,44 @@ def run(ctx):
                    {"stream": "c01", "line": ln, "program": prog_of.get(ln), "op": op, "impl": im, "model": mo,
                     "replay": "VERIF_SEED=%d ./check C01 %s" % (ctx.seed, ctx.tier)})
     for i, mo in enumerate(model_l):
-        if "SPEC-DIFFERS" in mo or "REAL-MATCHER-DIFFERS" in mo or "BYTES-DIFFER" in mo or "EMPTY-NAME-DIFFERS" in mo or "bad-name" in mo or mo == "bad-op":
+        if ("SPEC-DIFFERS" in mo or "REAL-MATCHER-DIFFERS" in mo or "BYTES-DIFFER" in mo or "EMPTY-NAME-DIFFERS" in mo
+                or "LPM-DIFFERS" in mo or "OUTBOUND-DIFFERS" in mo or "bad-name" in mo or mo == "bad-op"):
             ctx.report("model driver: scan and specification differ / bad op (harness-model protocol bug)", {"line": i + 1, "op": ops_l[i], "model": mo})
             break
+    # the extension streams: outbounds as written (patchMustOutbound + ParseOutbound), the group table
+    rc2, out2 = ctx.run_harness(binp, "TestVerifC01Ext")
+    ext_lines = {}
+    for name, what in (("c01ob", "outbound as written: real patchMustOutbound+ParseOutbound `{im}` model `{mo}`"),
+                       ("c01ids", "group table of NewControlPlane: real `{im}` model `{mo}`")):
+        o, i_, m_ = (os.path.join(ctx.out, name + "." + e) for e in ("ops", "impl", "model"))
+        if rc2 != 0 or not os.path.exists(o):
+            ctx.say("HARNESS-FAILED (extension streams)", out2[-3000:])
+            return 2
+        if not ctx.driver("c01drv", o, m_):
+            ctx.proof_failures.append("model driver c01drv failed to run on " + name)
+        mm = ctx.diff_streams(o, i_, m_, name)
+        if name == "c01ob":
+            # an ill-formed outbound (the model refuses it) that the code reads more leniently is outside the
+            # property (well-formed programs only): counted, not reported.  The other direction — a well-formed
+            # outbound refused or read differently — is reported.
+            lenient = [x for x in mm if x[3].startswith("err") and x[2].startswith("name=")]
+            ctx.cov["outbound_stream_ill_formed_but_accepted (not reported)"] = len(lenient)
+            mm = [x for x in mm if x not in lenient]
+        for ln, op, im, mo in mm[:5]:
+            ctx.report(what.format(im=im, mo=mo) + f" at line {ln}",
+                       {"stream": name, "line": ln, "op": op, "impl": im, "model": mo,
+                        "replay": "VERIF_SEED=%d ./check C01 %s" % (ctx.seed, ctx.tier)})
+        ml = read_lines(m_)
+        for j, mo in enumerate(ml):
+            if "SPEC-DIFFERS" in mo or mo == "bad-op":
+                ctx.report("model driver: outbound model and its specification differ / bad op", {"stream": name, "line": j + 1, "model": mo})
+                break
+        ext_lines[name] = read_lines(o)
+    ext_stats = json.load(open(os.path.join(ctx.out, "c01ext.stats.json")))
     # generator quality: which rule decided (diagnostic second pass of the model driver)
-    import subprocess, re
-    binp_drv = os.path.join(os.path.dirname(os.path.dirname(os.path.abspath(__file__))), "lean", ".lake", "build", "bin", "c01drv")
-    diag = subprocess.run([binp_drv, "--diag"], stdin=open(ops), stdout=subprocess.PIPE).stdout.decode().split("\n")
+    if diag_proc:
+        diag_proc.wait()
+    diag = open(diag_path, encoding="utf-8", errors="replace").read().split("\n") if diag_proc else []
     hits = collections.Counter()
     for l in diag:
         m = re.search(r"hit=(\w+)/(\d+)", l)
@@ -103,10 +191,13 @@ def run(ctx):
     stats = json.load(open(os.path.join(ctx.out, "c01.stats.json")))
     ctx.samples = stats["samples"][:2] + [x for x in ops_l if x.startswith("pkt ") or x.startswith("rpkt ")][:3]
     ctx.cov["input_distribution"] = stats["counters"]
+    ctx.cov["input_distribution_extension_streams"] = ext_stats["counters"]
+    ctx.samples += ext_stats["samples"][:2] + ext_lines["c01ob"][:2] + [x[:300] for x in ext_lines["c01ids"][2:3]]
     ctx.cov["distinct_decisions"] = len(hist)
     ctx.cov["programs"] = sum(1 for o in ops_l if o.startswith("prog "))
     # generator floors: a silent loss of a whole input class is a broken check, not a green one
-    c = stats["counters"]
+    c = dict(stats["counters"])
+    c.update(ext_stats["counters"])
     floors = []
     for key, least, what in [
         ("prog.accepted_with_exactly_limit_match_sets", 1, "no program of exactly MaxMatchSetLen match sets was accepted"),
@@ -119,6 +210,23 @@ def run(ctx):
         ("pkt.mac_one_bit_off", 20, "fewer than 20 packets whose MAC is one bit off a rule's MAC"),
         ("pkt.zero_mac_vs_mac_rule", 10, "fewer than 10 frames without a MAC aimed at a mac() rule"),
         ("pkt.via_Route_raw_args", 1000, "fewer than 1000 packets through Route"),
+        ("table.built_by_production_statements", 1, "the group table was not built by NewControlPlane's own statements"),
+        ("prog.lpm_slots_compared", 50, "fewer than 50 programs had their LPM slots compared with the model's slot table"),
+        ("pkt.concurrent_replay", 1000, "fewer than 1000 packets evaluated by concurrent goroutines on one matcher"),
+        ("pkt.on_previous_generation", 200, "fewer than 200 packets sent to the previous generation's matcher after the next was built"),
+        ("prog.refused_for_value_or_outbound", 3, "fewer than 3 programs with an unparsable value / outbound were refused"),
+        ("val.port_other_spelling", 20, "fewer than 20 ports written with leading zeros / a plus sign"),
+        ("num.octal_leading_zero", 10, "fewer than 10 numbers written with a leading zero (octal)"),
+        ("num.underscore", 5, "fewer than 5 numbers written with a digit separator"),
+        ("out.mark_overridden", 10, "fewer than 10 outbounds with two mark parameters"),
+        ("out.must_prefix_and_word", 3, "fewer than 3 outbounds with both the must_ prefix and the word must"),
+        ("ob.must_prefix", 300, "fewer than 300 must_-prefixed outbounds in the outbound stream"),
+        ("ob.answer.ok", 500, "fewer than 500 accepted outbounds in the outbound stream"),
+        ("ob.answer.err", 100, "fewer than 100 refused outbounds in the outbound stream"),
+        ("ob.mark_at_32bit_edge", 30, "fewer than 30 marks at the edge of the 32-bit range"),
+        ("ids.largest_table_accepted", 1, "the largest legal group table (OutboundUserDefinedMax names) was not accepted"),
+        ("ids.one_too_many_refused", 1, "a group table of OutboundUserDefinedMax+1 names was not refused"),
+        ("ids.duplicate_name", 5, "fewer than 5 group tables with a repeated name"),
     ]:
         if c.get(key, 0) < least:
             floors.append(f"{what} ({key}={c.get(key, 0)})")
@@ -130,4 +238,5 @@ def run(ctx):
         rule="one evaluation = (generated routing section, packet aimed at one of its rules with boundary values) through the real "
              "parser+config.New+builder+Route/Match vs the proved specification; distinct_nontrivial = distinct (program, packet) "
              "lines of non-empty programs (packets on empty programs are run and compared but not counted)",
-        evaluations=len(pk), distinct=len(set(o for o, _ in pk)))
+        evaluations=len(pk) + len(ext_lines["c01ob"]) + len(ext_lines["c01ids"]),
+        distinct=len(set(o for o, _ in pk)) + len(set(ext_lines["c01ob"])) + len(set(ext_lines["c01ids"])))
